@@ -22,6 +22,16 @@
 //                    (whole allocation after transports, level changes and at the end of the pass).
 //                    Without the hook: snapshot of the allocation after the pass; the driver checks the
 //                    allocation invariant on it.
+//   demand updates   (family "error path with a partial write": a mutator that validates AFTER it has started to
+//                    write.)  updateCellDemand(circuit) is called on the live placement at any point of its life (fresh,
+//                    after level changes, after redistribution passes) with a circuit whose areas changed between
+//                    non-zero values (accepted), or in which some cell's area changed to / from zero -- width 0, height 0,
+//                    cell toggled fixed / movable -- (refused with an exception, which is caught); also the
+//                    updateCellDemand(std::vector<int>) overload (no validation: non-zero -> non-zero changes only).  The
+//                    Lean driver models the call branch for branch (`updemand` / `setdemand`: refused => nothing written)
+//                    and the walk goes on; the direct oracle evaluates the statement with the demands the object reports
+//                    after the call (it does NOT demand that a refused call leaves the state untouched -- only that the
+//                    object still satisfies the statement, now and through the following steps).
 // The direct oracle below is independent C++ evaluating the property statement on the real object
 // after every step.  Each case runs in a forked child (the code's own check() asserts are compiled in).
 #include <algorithm>
@@ -46,7 +56,9 @@ struct Sink {  // per-case output collected in the child
   void op(const std::string &s) { os << "O " << s << "\n"; }
   void impl(const std::string &s) { os << "I " << s << "\n"; }
   void both(const std::string &s) { op(s); impl(s); }
-  void fail(const std::string &s) { os << "F " << s << "\n"; }
+  int nbFail = 0;
+  void fail(const std::string &s) { nbFail++; os << "F " << s << "\n"; }
+  void hist(const std::string &s) { os << "H " << s << "\n"; }  // the object's history, appended to a failing input
   void count(const std::string &s) { os << "C " << s << "\n"; }
   void countN(const std::string &s, long long n) { if (n) os << "M " << n << " " << s << "\n"; }
   void nontrivial() { os << "N\n"; }
@@ -222,6 +234,19 @@ void oracleView(Sink &k, const DensityLegalizer &h, const Ground &gr, const std:
     if (demand[c] == 0 && cnt[c] != 0) F("zero-demand cell " + std::to_string(c) + " is in " + std::to_string(cnt[c]) + " bins");
     if (cnt[c] == 1 && (h.cellBinX(c) != bx[c] || h.cellBinY(c) != by[c])) F("cellBinX/Y of cell " + std::to_string(c) + " disagree with binCells");
   }
+  // demand totals: the areas are the ones the object works with, and (every non-zero cell being in exactly one bin,
+  // the others in none) the bins' usage adds up to the total area of the cells
+  {
+    long long sum = 0, use = 0;
+    bool same = h.nbCells() == n;
+    for (int c = 0; c < n && same; ++c) if (h.cellDemand(c) != demand[c]) same = false;
+    for (int c = 0; c < n; ++c) sum += demand[c];
+    for (int i = 0; i < nx; ++i)
+      for (int j = 0; j < ny; ++j) use += h.binUsage(i, j);
+    if (!same) F("cellDemand() differs from the cells' areas");
+    if (h.totalDemand() != sum) F("totalDemand " + std::to_string(h.totalDemand()) + " != sum of the cells' areas " + std::to_string(sum));
+    if (use != sum) F("bin usages sum to " + std::to_string(use) + " != sum of the cells' areas " + std::to_string(sum));
+  }
   // reported coordinates inside the bin.  On an axis where the whole placement area has zero extent
   // (min == max; only reachable through DensityGrid(binSize, regions) with degenerate rectangles, never
   // through fromIspdCircuit) the binary32 convex combination dem*max + (1-dem)*min may be one ulp off
@@ -349,6 +374,12 @@ struct Walker {
   std::vector<int> demand;
   std::vector<float> tx, ty;
   bool changed = false;
+  // demand updates: own random stream (the walk's stream stays the one of the cases without updates), the circuit
+  // the current demands were read from (a synthetic one when the grid was built from regions), the life so far
+  vh::Rng gu = vh::Rng(0);
+  Circuit *circ = nullptr;
+  int nLevelOps = 0, nRedistributions = 0, nUpdates = 0;
+  bool stop = false;  // the statement failed right after an update: the walk ends (the object is not in a state the code's own asserts accept)
 
   using Snapshot = std::vector<std::vector<std::vector<int>>>;
   Snapshot snap() const {
@@ -363,6 +394,8 @@ struct Walker {
 
   void levelOp(const std::string &name) {
     k.op(name);
+    k.hist(name);
+    nLevelOps++;
     if (name == "refineX") leg.refineX();
     else if (name == "refineY") leg.refineY();
     else if (name == "coarsenX") leg.coarsenX();
@@ -380,6 +413,9 @@ struct Walker {
     for (size_t i = all.size(); i > 1; --i) std::swap(all[i - 1], all[g.range(0, i - 1)]);
     size_t cut = a == b ? all.size() : g.range(0, all.size());
     std::vector<int> na(all.begin(), all.begin() + cut), nb(all.begin() + cut, all.end());
+    k.hist("setBinCells " + std::to_string(a.first) + " " + std::to_string(a.second) + " {" + vh::join(na, ",") + "}" +
+           (a != b ? " ; setBinCells " + std::to_string(b.first) + " " + std::to_string(b.second) + " {" + vh::join(nb, ",") + "}" : ""));
+    nRedistributions++;
     k.op("setbin " + std::to_string(a.first) + " " + std::to_string(a.second) + (na.empty() ? "" : " " + vh::join(na)));
     leg.setBinCells(a.first, a.second, na);
     dumpAlloc(k, leg);
@@ -398,6 +434,8 @@ struct Walker {
     if (m < 4 && a.first + 1 < leg.nbBinsX()) b = {a.first + 1, a.second};
     else if (m < 8 && a.second + 1 < leg.nbBinsY()) b = {a.first, a.second + 1};
     Snapshot before = snap();
+    k.hist("rebisect " + std::to_string(a.first) + " " + std::to_string(a.second) + " " + std::to_string(b.first) + " " + std::to_string(b.second));
+    nRedistributions++;
     leg.rebisect(a.first, a.second, b.first, b.second);
     std::vector<int> order = leg.binCells(a.first, a.second);
     size_t split = order.size();
@@ -463,6 +501,12 @@ struct Walker {
       }
     }
     Snapshot before = snap();
+    {
+      std::string h = "reoptimize";
+      for (auto &c : cands) h += " (" + std::to_string(c.first) + "," + std::to_string(c.second) + ")";
+      k.hist(h);
+    }
+    nRedistributions++;
     leg.reoptimize(cands);
     emitReopt(cands, before);
     k.count("op_reoptimize_" + std::to_string(std::min<size_t>(cands.size(), 7)) + "bins");
@@ -476,6 +520,8 @@ struct Walker {
     for (int x = a.first; x < leg.nbBinsX() && x < a.first + w; ++x)
       for (int y = a.second; y < leg.nbBinsY() && y < a.second + h; ++y) cands.push_back({x, y});
     Snapshot before = snap();
+    k.hist("improveRectangle " + std::to_string(a.first) + " " + std::to_string(a.second) + " " + std::to_string(w) + " " + std::to_string(h));
+    nRedistributions++;
     leg.improveRectangle(a.first, a.second, w, h);
     emitReopt(cands, before);
     k.count("op_improveRectangle");
@@ -484,6 +530,8 @@ struct Walker {
 
   void transport(bool xdir) {
     Snapshot before = snap();
+    k.hist(xdir ? "improveXTransport" : "improveYTransport");
+    nRedistributions++;
     if (xdir) leg.improveXTransport(); else leg.improveYTransport();
     std::ostringstream os;
     os << (xdir ? "xtrans" : "ytrans");
@@ -643,6 +691,8 @@ struct Walker {
 
   void publicPass(const std::string &name) {
     Snapshot before = snap();
+    k.hist(name);
+    nRedistributions++;
 #ifdef COLOQUINTE_VERIF_HAS_H4
     replayPass(name);
 #else
@@ -657,19 +707,174 @@ struct Walker {
     oracle(name);
   }
 
+  // ---- demand updates on the live placement (family: error path with a partial write)
+  static long long areaOf(bool fixed, int w, int h) { return fixed ? 0 : (long long)w * h; }
+
+  // a circuit description whose demand for cell c is d (used when the grid did not come from a circuit, or to resync)
+  void describe(int c, int d, std::vector<int> &w, std::vector<int> &h, std::vector<bool> &f) {
+    if (d != 0) {
+      static const std::vector<int> hs = {1, 1, 2, 3, 4, 5, 6, 8, 10};
+      int hh = gu.pick(hs);
+      if (d % hh != 0) hh = 1;
+      f[c] = false; h[c] = hh; w[c] = d / hh;
+    } else {
+      int r = gu.range(0, 3);
+      f[c] = r == 0 || r == 3;
+      w[c] = (r == 1 || r == 3) ? 0 : (int)gu.range(1, 9);
+      h[c] = r == 2 ? 0 : (int)gu.range(1, 6);
+    }
+  }
+
+  void afterUpdate(const std::string &what, bool threw) {
+    int before = k.nbFail;
+    for (size_t c = 0; c < demand.size(); ++c) demand[c] = leg.cellDemand(c);  // the areas the object now works with
+    oracle(what);
+    if (k.nbFail > before) { stop = true; return; }
+    if (!threw) return;
+    // the caller caught the exception and keeps using the placement
+    bool degenerate = gr.area.minX >= gr.area.maxX || gr.area.minY >= gr.area.maxY || leg.totalCapacity() <= 0;
+    bool canRX = leg.levelX() >= 1, canRY = leg.levelY() >= 1;
+    bool canCX = leg.levelX() + 1 < leg.nbLevelX(), canCY = leg.levelY() + 1 < leg.nbLevelY();
+    std::vector<std::string> lv;
+    if (canRX) lv.push_back("refineX");
+    if (canRY) lv.push_back("refineY");
+    if (canCX) lv.push_back("coarsenX");
+    if (canCY) lv.push_back("coarsenY");
+    int m = gu.range(0, 9);
+    if (m < 5 || degenerate) {
+      if (!lv.empty()) { levelOp(gu.pick(lv)); k.count("update_refused_then_level_change"); }
+    } else if (m < 9) {
+      if (gu.chance(1, 2)) rebisect(); else reoptimize();
+      k.count("update_refused_then_rebisect/reoptimize");
+    } else {
+      static const std::vector<std::string> ps = {"improve", "run", "runCoarsening", "runRefinement"};
+      publicPass(gu.pick(ps));
+      k.count("update_refused_then_public_pass");
+    }
+  }
+
+  void updateDemand() {
+    int n = leg.nbCells();
+    nUpdates++;
+    k.count(nLevelOps + nRedistributions == 0 ? "update_on_fresh_placement" : nRedistributions == 0 ? "update_after_level_changes_only" : "update_after_redistribution_steps");
+    if (changed) k.count("update_after_allocation_changed_by_legalizer");
+    // the circuit the current demands came from (resynchronised with what the object reports)
+    std::vector<int> w = circ->cellWidth(), h = circ->cellHeight();
+    std::vector<bool> f = circ->cellIsFixed();
+    for (int c = 0; c < n; ++c)
+      if (areaOf(f[c], w[c], h[c]) != leg.cellDemand(c)) describe(c, leg.cellDemand(c), w, h, f);
+    int mode = gu.range(0, 9);
+    if (mode >= 8) {  // the vector overload: no validation, areas change between non-zero values only
+      std::vector<int> nd(n);
+      int nchg = 0;
+      for (int c = 0; c < n; ++c) {
+        int d = leg.cellDemand(c);
+        nd[c] = d != 0 && gu.chance(2, 3) ? (int)gu.range(1, std::min(4000, 2 * d + 2)) : d;
+        if (nd[c] != d) { nchg++; w[c] = nd[c]; h[c] = 1; f[c] = false; }
+      }
+      k.hist("updateCellDemand(vector) {" + vh::join(nd, ",") + "}");
+      k.op(line("setdemand", vh::join(nd)));
+      leg.updateCellDemand(nd);
+      circ->setCellWidth(w); circ->setCellHeight(h); circ->setCellIsFixed(f);
+      k.impl("setdemand ok");
+      dumpAlloc(k, leg); dumpView(k, leg);
+      { std::vector<int> dd; for (int c = 0; c < n; ++c) dd.push_back(leg.cellDemand(c)); k.impl(line("demands", vh::join(dd))); }
+      for (int c = 0; c < n; ++c) if (leg.cellDemand(c) != nd[c]) { k.fail("after updateCellDemand(vector): cell " + std::to_string(c) + " has demand " + std::to_string(leg.cellDemand(c)) + ", not the area given " + std::to_string(nd[c])); break; }
+      k.count("update_vector_overload_accepted");
+      if (nchg) k.count("update_accepted_changed_some_area");
+      afterUpdate("updateCellDemand(vector)", false);
+      return;
+    }
+    bool wantRefused = mode < 4 && n > 0;
+    std::vector<int> nw = w, nh = h;
+    std::vector<bool> nf = f;
+    int nchg = 0;
+    for (int c = 0; c < n; ++c) {
+      if (leg.cellDemand(c) != 0) {  // another non-zero area
+        if (!gu.chance(2, 3)) continue;
+        nw[c] = gu.range(1, std::min(1000, 2 * w[c] + 2));
+        if (gu.chance(1, 4)) nh[c] = gu.range(1, std::min(64, 2 * h[c] + 1));
+        if (areaOf(nf[c], nw[c], nh[c]) != leg.cellDemand(c)) nchg++;
+      } else if (gu.chance(1, 2)) {  // another way of having no area: fixed / zero width / zero height
+        describe(c, 0, nw, nh, nf);
+        k.count("update_zero_cell_redescribed_(fixed<->zero_size)");
+      }
+    }
+    if (wantRefused) {
+      int q = gu.range(1, std::min(3, n));
+      for (int t = 0; t < q; ++t) {
+        int c = gu.range(0, n - 1);
+        if (leg.cellDemand(c) != 0) {
+          int r = gu.range(0, 2);
+          // restore a non-zero area first so that each cause is seen alone
+          if (areaOf(nf[c], nw[c], nh[c]) == 0) continue;  // already flipped by a previous pick
+          if (r == 0) { nw[c] = 0; k.count("update_refused_area_to_zero_by_width"); }
+          else if (r == 1) { nh[c] = 0; k.count("update_refused_area_to_zero_by_height"); }
+          else { nf[c] = true; k.count("update_refused_area_to_zero_by_fixing_the_cell"); }
+        } else {
+          if (areaOf(nf[c], nw[c], nh[c]) != 0) continue;
+          bool wasFixedOnly = nf[c] && nw[c] > 0 && nh[c] > 0;
+          nf[c] = false;
+          if (nw[c] <= 0) nw[c] = gu.range(1, 9);
+          if (nh[c] <= 0) nh[c] = gu.range(1, 6);
+          k.count(wasFixedOnly ? "update_refused_area_from_zero_by_unfixing_the_cell" : "update_refused_area_from_zero_by_size");
+        }
+      }
+    }
+    std::vector<int> nd(n);
+    bool zeroFlip = false;
+    for (int c = 0; c < n; ++c) {
+      nd[c] = (int)areaOf(nf[c], nw[c], nh[c]);
+      if ((nd[c] == 0) != (leg.cellDemand(c) == 0)) zeroFlip = true;
+    }
+    Circuit next = *circ;
+    next.setCellWidth(nw); next.setCellHeight(nh); next.setCellIsFixed(nf);
+    {
+      std::vector<int> fi;
+      for (int c = 0; c < n; ++c) fi.push_back(nf[c] ? 1 : 0);
+      k.hist("updateCellDemand(circuit) widths={" + vh::join(nw, ",") + "} heights={" + vh::join(nh, ",") + "} fixed={" + vh::join(fi, ",") + "} areas={" + vh::join(nd, ",") + "}" +
+             (zeroFlip ? " [some area changes to/from zero]" : ""));
+    }
+    k.op(line("updemand", vh::join(nd)));
+    std::string res = "ok";
+    try { leg.updateCellDemand(next); }
+    catch (const std::runtime_error &) { res = "throw:runtime_error"; }
+    catch (const std::exception &) { res = "throw:exception"; }
+    k.hist(std::string("  -> ") + res);
+    k.impl("updemand " + res);
+    dumpAlloc(k, leg); dumpView(k, leg);
+    { std::vector<int> dd; for (int c = 0; c < n; ++c) dd.push_back(leg.cellDemand(c)); k.impl(line("demands", vh::join(dd))); }
+    bool threw = res != "ok";
+    if (!threw) {
+      *circ = next;
+      // the statement's areas are now the ones of the circuit handed over
+      for (int c = 0; c < n; ++c) if (leg.cellDemand(c) != nd[c]) { k.fail("after accepted updateCellDemand(circuit): cell " + std::to_string(c) + " has demand " + std::to_string(leg.cellDemand(c)) + ", not the movable cell's area " + std::to_string(nd[c])); break; }
+    }
+    k.count(threw ? "update_circuit_refused_(exception_caught)" : "update_circuit_accepted");
+    if (!threw && nchg) k.count("update_accepted_changed_some_area");
+    if (n == 0) k.count("update_on_placement_without_cells");
+    afterUpdate(threw ? "refused updateCellDemand(circuit)" : "accepted updateCellDemand(circuit)", threw);
+  }
+
+  void maybeUpdate() {
+    if (!stop && gu.chance(1, 10)) updateDemand();
+  }
+
   void walk(int steps) {
     bool degenerate = gr.area.minX >= gr.area.maxX || gr.area.minY >= gr.area.maxY || leg.totalCapacity() <= 0;
     // most walks first descend a random number of levels (the constructor leaves the single-bin view)
+    maybeUpdate();  // on the fresh placement
     if (g.chance(4, 5)) {
       int d = g.range(1, leg.nbLevelX() + leg.nbLevelY());
-      for (int q = 0; q < d; ++q) {
+      for (int q = 0; q < d && !stop; ++q) {
         bool rx = leg.levelX() >= 1, ry = leg.levelY() >= 1;
         if (!rx && !ry) break;
         if (rx && (!ry || g.chance(1, 2))) levelOp("refineX"); else levelOp("refineY");
         if (!degenerate && g.chance(1, 3)) { if (g.chance(1, 2)) rebisect(); else reoptimize(); }
       }
+      maybeUpdate();
     }
-    for (int s = 0; s < steps; ++s) {
+    for (int s = 0; s < steps && !stop; ++s, maybeUpdate()) {
       int m = g.range(0, 99);
       bool canRX = leg.levelX() >= 1, canRY = leg.levelY() >= 1;
       bool canCX = leg.levelX() + 1 < leg.nbLevelX(), canCY = leg.levelY() + 1 < leg.nbLevelY();
@@ -702,6 +907,7 @@ void runCase(std::ostream &os, uint64_t seed, long long idx, const std::string &
   std::vector<int> demand;
   bool fromCircuit = g.chance(1, 3);
   std::unique_ptr<DensityLegalizer> leg;
+  std::unique_ptr<Circuit> circ;  // the circuit the demands come from (demand updates)
   std::ostringstream input;
   if (fromCircuit) {
     vc::GenOpts o;
@@ -777,6 +983,7 @@ void runCase(std::ostream &os, uint64_t seed, long long idx, const std::string &
       if (demand[i] != want) k.fail("cell demand differs from the movable cell's area");
     }
     leg.reset(new DensityLegalizer(hp));
+    circ.reset(new Circuit(c));
     k.count("grid_from_circuit");
     if (margin > 0) k.count("grid_margin_positive");
     bool obstructed = false;
@@ -840,6 +1047,15 @@ void runCase(std::ostream &os, uint64_t seed, long long idx, const std::string &
          std::to_string(p.squareReoptOverlap) + " " + (p.unidimensionalTransport ? "1" : "0"));
   }
   Walker w{k, g, *leg, gr, demand, tx, ty};
+  w.gu = vh::Rng::forCase(seed ^ 0x5DEECE66Dull, idx);
+  if (!circ) {  // grid from regions: a circuit of n cells with these areas (updateCellDemand reads isFixed and the sizes only)
+    circ.reset(new Circuit(n));
+    std::vector<int> cw(n, 0), ch(n, 0);
+    std::vector<bool> cf(n, false);
+    for (int c = 0; c < n; ++c) w.describe(c, demand[c], cw, ch, cf);
+    circ->setCellWidth(cw); circ->setCellHeight(ch); circ->setCellIsFixed(cf);
+  }
+  w.circ = circ.get();
   w.oracle("construction");
   int bins = grid.nbBins();
   k.count(bins == 1 ? "grid_1_bin" : bins <= 8 ? "grid_2-8_bins" : bins <= 40 ? "grid_9-40_bins" : "grid_41+_bins");
@@ -852,6 +1068,8 @@ void runCase(std::ostream &os, uint64_t seed, long long idx, const std::string &
   int positive = 0;
   for (int d : demand) if (d > 0) positive++;
   if (bins > 1 && positive > 0 && w.changed) k.nontrivial();
+  if (w.nUpdates) k.count("cases_with_demand_updates");
+  if (w.nUpdates >= 2) k.count("cases_with_2+_demand_updates");
 }
 
 }  // namespace
@@ -862,7 +1080,13 @@ int main(int argc, char **argv) {
   out.rule = "case = grid (random disjoint/obstructed/degenerate regions, or vc::genCircuit through fromIspdCircuit with random "
              "sizeFactor/sideMargin) + demands (zeros included) + float targets (inside/outside/coincident/on limits) + a parameter "
              "set accepted by RoughLegalizationParameters::check + a random walk of refine/coarsen/setBinCells/rebisect/reoptimize/"
-             "improveRectangle/improveX/YTransport/run/refine/improve; non-trivial = more than one bin, at least one positive-demand "
+             "improveRectangle/improveX/YTransport/run/refine/improve, interleaved (1 step in 10, own random stream) with demand updates on the "
+             "live placement: updateCellDemand(circuit) accepted (areas change between non-zero values; counters update_circuit_accepted, "
+             "update_accepted_changed_some_area) or refused and caught (an area changes to/from zero by width 0 / height 0 / fixing / unfixing "
+             "a cell; counters update_circuit_refused_*, update_refused_area_*, then a level change / rebisect / reoptimize / public pass: "
+             "update_refused_then_*), updateCellDemand(vector) (update_vector_overload_accepted), at every stage of the object's life "
+             "(update_on_fresh_placement / update_after_level_changes_only / update_after_redistribution_steps); the statement is evaluated "
+             "after each with the demands the object reports; non-trivial = more than one bin, at least one positive-demand "
              "cell and at least one redistribution step that changed the allocation; distinct by case input";
   long long n = a.thorough() ? 100000 : (a.search() ? 5000 : 6000);
   std::vector<long long> todo;
@@ -872,6 +1096,10 @@ int main(int argc, char **argv) {
     std::string all((std::istreambuf_iterator<char>(f)), std::istreambuf_iterator<char>());
     size_t p = all.find("\"case\": \"k");
     if (p != std::string::npos) todo.push_back(atoll(all.c_str() + p + 10));
+    // the case (grid, demands, targets, parameters, the whole history of calls incl. the demand updates and their
+    // circuits) is regenerated from (seed, index); the seed is the one recorded in the failing input
+    size_t q = all.find("\"input\": \"seed=");
+    if (q != std::string::npos) a.seed = strtoull(all.c_str() + q + 15, nullptr, 10);
   }
   if (todo.empty())
     for (long long i = 0; i < n; ++i) todo.push_back(i);
@@ -884,6 +1112,7 @@ int main(int argc, char **argv) {
     std::istringstream is(output);
     std::string ln;
     std::vector<std::string> ops, impl, fails;
+    std::string history;  // the calls made on the placement up to the first failure
     bool nontrivial = false;
     while (std::getline(is, ln)) {
       if (ln.size() < 1) continue;
@@ -892,6 +1121,7 @@ int main(int argc, char **argv) {
       if (t == 'O') ops.push_back(body);
       else if (t == 'I') impl.push_back(body);
       else if (t == 'F') fails.push_back(body);
+      else if (t == 'H') { if (fails.empty()) history += "  " + body + "\n"; }
       else if (t == 'C') out.count(body);
       else if (t == 'M') { size_t sp = body.find(' '); if (sp != std::string::npos) out.count(body.substr(sp + 1), atoll(body.c_str())); }
       else if (t == 'N') nontrivial = true;
@@ -900,19 +1130,30 @@ int main(int argc, char **argv) {
       if (ops[q].rfind("case", 0) != 0) { input += ops[q] + "\n"; if (ops[q].rfind("hplace", 0) == 0) break; }
     input = "seed=" + std::to_string(a.seed) + " index=" + std::to_string(i) + "\n" + input;
     if (st != "ok") {
-      out.fail(id, "crash inside the real code (" + st + "): " + diag.substr(0, 600), input);
+      // what the case had written before it died (a case run alone writes through an unbuffered file)
+      std::string soFar = input + "history of calls on the placement before the crash (regenerated from seed/index on replay):\n" + history;
+      for (auto &s : fails) out.fail(id, s, soFar);
+      out.fail(id, "crash inside the real code (" + st + "): " + diag.substr(0, 600), soFar);
       out.count("crashed_cases");
       return;  // nothing of this case goes to the streams
     }
     for (auto &s : ops) out.ops << s << "\n";
     for (auto &s : impl) out.impl << s << "\n";
-    for (auto &s : fails) out.fail(id, s, input);
+    std::string failInput = input + "history of calls on the placement (regenerated from seed/index on replay):\n" + history;
+    for (auto &s : fails) out.fail(id, s, failInput);
     if (nontrivial) out.nontrivial(vh::hashStr(input));
     if (out.samples.size() < 4) out.sample(input.substr(0, 300));
   };
   auto runAlone = [&](long long i) {
     std::string output, diag;
-    std::string st = vh::isolated([&](std::ostream &os) { runCase(os, a.seed, i, "k" + std::to_string(i), nullptr); }, output, 120, &diag);
+    std::string part = a.out + "/alone-" + std::to_string(i) + ".txt";
+    std::string st = vh::isolated([&](std::ostream &os) {
+      { std::ofstream f(part); f << std::unitbuf; runCase(f, a.seed, i, "k" + std::to_string(i), nullptr); }
+      std::ifstream r(part);
+      os << r.rdbuf();
+    }, output, 120, &diag);
+    if (st != "ok") { std::ifstream r(part); output.assign((std::istreambuf_iterator<char>(r)), std::istreambuf_iterator<char>()); }
+    unlink(part.c_str());
     absorb(i, st, output, diag);
   };
   if (a.only >= 0) {
